@@ -68,7 +68,8 @@ pub fn result_json(scn: &Scenario) -> Value {
         .map(|c| match &c.res {
             Res::Unit | Res::Skipped => json!({"res": "ok"}),
             Res::Path(p) => json!({"res": "path", "path": p}),
-            Res::Err(e) => json!({"res": "err", "text": err_text(e)}),
+            // `api_state`: decided by the API state alone (not by what was sampled)
+            Res::Err(e) => json!({"res": "err", "text": err_text(e), "api_state": matches!(e, ErrKind::PlannerUninitialised | ErrKind::InvalidStartState | ErrKind::UnsampledStateSpace)}),
             Res::Panic(m) => json!({"res": "panic", "text": m}),
             Res::Abort(m) => json!({"res": "abort", "text": m}),
         })
@@ -220,7 +221,7 @@ pub fn mirror_scenario(prop: &str, seed: u64, index: u64) -> Option<Scenario> {
         // API histories the Python wrappers can express: solve again on the kept tree / roadmap,
         // setup again with ANOTHER callback (the problem definition is fixed at construction in
         // Python, so problem 1 = problem 0 checked against world 1 = world 0 plus one more ball)
-        let h = rng.below(13);
+        let h = rng.below(14);
         if h >= 6 {
             let mut w1 = scn.worlds[0].clone();
             let mut g2 = geo_for(&scn.space).ok()?;
@@ -274,6 +275,16 @@ pub fn mirror_scenario(prop: &str, seed: u64, index: u64) -> Option<Scenario> {
                     calls.extend(setup(0));
                     calls.push(solve.clone());
                     calls.extend(setup(0));
+                }
+                // (PRM) setup again WITHOUT constructing a roadmap: the query must report the
+                // unsampled space, whatever an earlier query returned
+                13 => {
+                    calls.extend(setup(0));
+                    calls.push(solve.clone());
+                    calls.push(CallSpec::Setup { problem: 1 });
+                    calls.push(solve.clone());
+                    calls.extend(setup(0));
+                    calls.push(solve.clone());
                 }
                 12 => {
                     calls.extend(setup(1));
